@@ -394,7 +394,7 @@ def main():
     # across builds the maximum is reported so that the same case seen in two builds is not counted twice
     cov['distinct_nontrivial'] = max(distinct_by_build.values()) if distinct_by_build else 0
     cov['distinct_nontrivial_by_build'] = distinct_by_build
-    cov['rule'] = rule
+    cov['rule'] = spec.get('rule') or rule
     if not samples and variants:
         # no harness-provided sample (should not happen): at least show what was run
         samples = [{'variant': k, 'executions': v} for k, v in list(variants.items())[:3]]
